@@ -338,7 +338,7 @@ class Exec(HeapMixin, SpecEvalMixin, ExprMixin, StmtMixin, CallMixin):
         """Nothing outside `modifies` changed: pointwise on an arbitrary pre-existing object."""
         env = SpecEnv(entry, dict(params))
         permitted = {}      # heap key -> list of obj terms, or None for 'whole field'
-        for loc in c.modifies:
+        for loc in list(c.modifies) + list(c.ghost_modifies):
             for item in self.parse_location(env, loc):
                 kind = item[0]
                 if kind == "field*":
